@@ -100,10 +100,10 @@ def reference():
     return p.stdout.decode().strip().splitlines()[-1] if p.stdout.strip() else 'REFERENCE FAILED: ' + p.stderr.decode()[-300:]
 
 
-def api_call(rnd):
+def api_call(rnd, pool=()):
     """one public-API call as (description, thunk); thunks may raise"""
     cp = _cp()
-    k = rnd.choice(['parseString', 'parseString', 'parseStyle', 'parser-reuse', 'medialist', 'mediaquery', 'selector',
+    k = rnd.choice(['parseString', 'parseString', 'parseStyle', 'parser-reuse', 'old-parser', 'old-parser', 'medialist', 'mediaquery', 'selector',
                     'selectorlist', 'style-text', 'property', 'sheet-text', 'rule-text', 'append-medium', 'append-selector',
                     'serialize-prefs', 'csscombine', 'value', 'import-raise', 'set-raise', 'set-serializer'])
     t = rnd.choice(list(TEXTS))
@@ -112,6 +112,14 @@ def api_call(rnd):
     if k == 'parseString':
         return ('parseString(%s, raise=%s)' % (t, raising),
                 lambda: cp.CSSParser(fetcher=fetcher_ok, raiseExceptions=raising).parseString(TEXTS[t], href='http://h/s.css'))
+    if k == 'old-parser':
+        # a parser object made earlier (under whatever setting was in force then) and used again now
+        i = rnd.randrange(len(pool)) if pool else 0
+        if not pool:
+            return ('module parseString(%s)' % t, lambda: cp.parseString(TEXTS[t]))
+        if rnd.random() < 0.6:
+            return ('parser[%d].parseString(%s)' % (i, t), lambda: pool[i].parseString(TEXTS[t], href='http://h/s.css'))
+        return ('parser[%d].parseStyle(%r)' % (i, s), lambda: pool[i].parseStyle(s))
     if k == 'parseStyle':
         return ('parseStyle(%r)' % s, lambda: cp.parseStyle(s if rnd.random() < 0.7 else b'\xff'))
     if k == 'parser-reuse':
@@ -176,10 +184,12 @@ def run_sequence(seed, length, ref):
     cp = _cp()
     rnd = random.Random(seed)
     cp.log.raiseExceptions = True
+    # parsers that live as long as the sequence: made now, used after the caller has changed settings
+    pool = [cp.CSSParser(fetcher=fetcher_ok, raiseExceptions=r) for r in (None, True, False)]
     expect = settings_snapshot()
-    history = []
+    history = ['parser[0..2] = CSSParser(raiseExceptions=None/True/False)']
     for _ in range(length):
-        desc, thunk = api_call(rnd)
+        desc, thunk = api_call(rnd, pool)
         history.append(desc)
         if isinstance(thunk, tuple):
             # the caller changes a setting: from now on that is what must be observed
